@@ -227,7 +227,7 @@ func init() {
 			}
 			for _, s := range []site{
 				{"keeper.Keeper.slashUndelegations", "types.ParseUnbondingIndexKeyToUndelegationKey", []string{"types.BankKeeper.SendCoinsFromModuleToModule", "corestore.KVStore.Set"}},
-				{"keeper.Keeper.slashRedelegations", "types.ParseRedelegationIndexForRedelegationKey", []string{"keeper.Keeper.SetValidator", "keeper.Keeper.SetDelegation"}},
+				{"keeper.Keeper.slashRedelegations", "types.ParseRedelegationIndexForRedelegationKey", []string{"keeper.Keeper.SetValidator", "keeper.Keeper.SetDelegation", "keeper.Keeper.reduceDelegationShares"}},
 			} {
 				fn := r.Need(s.fn)
 				if fn == nil {
@@ -326,13 +326,24 @@ func init() {
 					}
 				}
 			}
+			// the delegation is reduced either in place (Shares := Shares.Sub(sh)) or through reduceDelegationShares(.., sh, delegation),
+			// which subtracts its shares parameter from the delegation it is given and deletes the record at zero (C03.pair.delegation)
 			sts := StoresToField(fn, "types.Delegation", "Shares")
-			okS := len(sts) == 1
-			if okS {
+			reds := CallsTo(fn, "keeper.Keeper.reduceDelegationShares")
+			okS := false
+			var persistD ssa.Instruction
+			switch {
+			case len(sts) == 1 && len(reds) == 0:
 				v := fa.Term(sts[0].Val)
 				okS = v.IsCall("math.LegacyDec.Sub") && v.Args[0].Eq(mkField(dl, "Shares")) && v.Args[1].Eq(sh)
+				if sd := CallsTo(fn, "keeper.Keeper.SetDelegation"); len(sd) == 1 {
+					persistD = sd[0]
+				}
+			case len(sts) == 0 && len(reds) == 1:
+				okS = argT(fa, reds[0], 4).Eq(sh) && argT(fa, reds[0], 5).Eq(dl) && argT(fa, reds[0], 1).Eq(dl.Args[0].CallArgsT()[2])
+				persistD = reds[0]
 			}
-			r.Check(okS, fk, "delegation shares reduced by the validated amount", "Shares := Shares.Sub(sharesToSlash)", "delegation shares are not reduced by exactly the ValidateDelegatedAmount result", r.P(vd))
+			r.Check(okS, fk, "delegation shares reduced by the validated amount", "Shares := Shares.Sub(sharesToSlash), in place or through reduceDelegationShares(.., sharesToSlash, that delegation)", "delegation shares are not reduced by exactly the ValidateDelegatedAmount result", r.P(vd))
 			vs := StoresToField(fn, "types.AllianceValidatorInfo", "TotalDelegatorShares")
 			okV := len(vs) == 1
 			if okV {
@@ -344,18 +355,17 @@ func init() {
 				}
 			}
 			r.Check(okV, fk, "validator's delegator-share total reduced by the same amount", "TotalDelegatorShares.Sub([denom, sharesToSlash])", "the validator's delegator-share total is not reduced by the same shares as the delegation", r.P(vd))
-			setD := CallsTo(fn, "keeper.Keeper.SetDelegation")
 			setV := CallsTo(fn, "keeper.Keeper.SetValidator")
-			if len(sts) == 1 && len(setD) == 1 && len(setV) == 1 && len(vs) == 1 {
+			if persistD != nil && len(setV) == 1 && len(vs) == 1 {
 				if trail := fa.MustFollow(vs[0], []ssa.Instruction{setV[0]}); trail != nil {
 					r.Bad(fk, "both reductions persisted", "validator share total reduced in memory but not persisted", trail, r.P(vs[0]))
-				} else if trail := fa.MustFollow(setV[0], []ssa.Instruction{setD[0]}); trail != nil {
+				} else if trail := fa.MustFollow(setV[0], []ssa.Instruction{persistD}); trail != nil {
 					r.Bad(fk, "both reductions persisted", "a success path persists the validator's reduced total without persisting the reduced delegation", trail, r.P(setV[0]))
 				} else {
-					r.OK(fk, "both reductions persisted", "SetValidator then SetDelegation on every success path", r.P(setD[0]))
+					r.OK(fk, "both reductions persisted", "SetValidator then the delegation write on every success path", r.P(persistD))
 				}
 			} else {
-				r.Bad(fk, "both reductions persisted", "expected one SetValidator and one SetDelegation", nil)
+				r.Bad(fk, "both reductions persisted", "expected one SetValidator and one write of the reduced delegation (SetDelegation or reduceDelegationShares)", nil)
 			}
 		}})
 
